@@ -320,6 +320,14 @@ class SMIO(GameIO):
         out = []
         if len(dk["charts"]) != len(d1["charts"]):
             return [f"{len(dk['charts'])} charts vs {len(d1['charts'])}"]
+        # exact when every tempo change of the first generation is on a measure line; otherwise reading reseats the
+        # tempo list (new bpm values computed in floats) and C03 promises the written grid: 1/96 beat at the local tempo
+        on_lines = all((b["beat"] / 4).denominator == 1 for b in d1["bpms"])
+        tl1 = timeline([dict(offset=float(b["offset"]), bpm=float(b["bpm"])) for b in d1["bpms"]])
+
+        def ftol(t):  # shadows the module-level tolerance inside cmp_gen on purpose
+            return _FTOL(t) if on_lines else local_tol(tl1, float(t))
+
         for i, (x, y) in enumerate(zip(dk["charts"], d1["charts"])):
             w = f"chart {i}: "
             for f in ("chart_type", "description", "difficulty", "difficulty_val", "groove_radar"):
